@@ -381,7 +381,16 @@ func (g *cgen) dictOp() (ContOp, bool) {
 	case 13:
 		return st("dict.update|alias", fmt.Sprintf("%s.update(%s)", x, y))
 	case 14:
-		return st("dict.update|literal", fmt.Sprintf("%s.update({%s: %s})", x, g.key(), g.val()))
+		switch r.Intn(4) {
+		case 0:
+			return st("dict.update|literal", fmt.Sprintf("%s.update({%s: %s})", x, g.key(), g.val()))
+		case 1:
+			return st("dict.update|self", fmt.Sprintf("%s.update(%s)", x, x))
+		case 2:
+			return st("dict.update|pairs", fmt.Sprintf("%s.update([(%s, %s), (%s, %s)])", x, g.key(), g.val(), g.key(), g.val()))
+		default:
+			return st("dict.update|kwargs", fmt.Sprintf("%s.update(k%d=%s)", x, r.Intn(5), g.val()))
+		}
 	case 15:
 		return st("dict.for-overwrite", fmt.Sprintf("for _k in %s:\n    %s[_k] = %s[_k] + 10", x, x, x))
 	default:
@@ -426,7 +435,14 @@ func (g *cgen) setOp(mixed bool) (ContOp, bool) {
 		}
 		return st("set.binop", fmt.Sprintf("%s = %s %s %s", a(z), x, op, y))
 	case 9:
-		return st("set.update|alias", fmt.Sprintf("%s.update(%s)", x, y))
+		switch r.Intn(3) {
+		case 0:
+			return st("set.update|alias", fmt.Sprintf("%s.update(%s)", x, y))
+		case 1:
+			return st("set.update|self", fmt.Sprintf("%s.update(%s)", x, x))
+		default:
+			return st("set.update|iterables", fmt.Sprintf("%s.update([%s, %s], (%s,))", x, g.scalar(false), g.scalar(false), g.scalar(false)))
+		}
 	case 10:
 		return ex("set.iter", fmt.Sprintf("len([_v for _v in %s])", x))
 	case 11:
